@@ -435,6 +435,13 @@ func specLkAfter(kind, lk int) int {
 // Faithfulness of one step: the pair added for a record is the (decoded) name
 // bytes of that record and the 8-byte little-endian value stored in it.
 //@   at call DecodeStack#1: assert arg0 == bytes(data, int(off)+16, len(ename))
+// Faithfulness of the metadata: the header length is the little-endian word after
+// the (padded) magic; the metadata text is what lies between that word and the end
+// of the header, up to its first NUL, split into lines at newlines and into key and
+// value at the first ": ".
+//@   at call IndexByte#1: assert np == 28 && wide(hdrLen) == wide(le32(data, np)) && issub(arg0, data, np+4, int(hdrLen)) && arg1 == 0
+//@   at call Split#1: assert arg0 == string(meta) && arg1 == "\n"
+//@   at call Cut#1: assert arg0 == line && arg1 == ": "
 //@   at call Load#1: after assert result == le64(data, int(off))
 //@   modifies nothing
 
